@@ -267,7 +267,7 @@ Section Rel.
 
     Lemma build_from_R : forall f ctx, R (build_from rec join ctx f) (build_from rec' join' ctx f).
     Proof.
-      induction f as [|path alias|fn path alias|q alias|jt st l IHl r IHr on]; intro ctx; cbn [build_from].
+      induction f as [|path alias|fn path alias|sl alias|q alias|jt st l IHl r IHr on]; intro ctx; cbn [build_from].
       - apply R_refl.
       - destruct path as [|k rest]; [apply R_refl|].
         destruct (cte_lookup k (c_ctes ctx)) as [body|].
@@ -277,6 +277,7 @@ Section Rel.
           destruct (existsb (String.eqb (uh_name h)) (fr_busy (uh_frame h))); [apply R_refl|].
           apply R_bind; [apply Hrec|]. intro; apply R_refl.
       - destruct (up_read ctx path); apply R_refl.
+      - apply R_refl.
       - apply R_bind; [apply Hrec|]. intro; apply R_refl.
       - apply R_bind; [apply IHl|]. intro lf. apply R_bind; [apply IHr|]. intro rf.
         destruct lf as [lrows|]; [|apply R_refl]. destruct rf as [rrows|]; [|apply R_refl].
